@@ -67,22 +67,22 @@ theorem src_update (h : TagAttrDict_update_available = true) (h1 : normalize_att
   -- everything after `args` is fixed, for any list of dicts and whatever the loop body is
   have rest : ∀ (ds : List (List (Str × AttrArg)))
       (ob : PVal → PVal × PVal × PVal × PVal × PVal × PVal × PVal → PyM (ForInStep (PVal × PVal × PVal × PVal × PVal × PVal × PVal)))
-      (init : PVal × PVal × PVal × PVal × PVal × PVal × PVal), init.2.1 = embAttrs [] →
-      (∀ (d : List (Str × AttrArg)) (acc : Attrs) s, s.2.1 = embAttrs acc →
-        Sim (fun (r : ForInStep _) (b' : Attrs) => ∃ s', r = .yield s' ∧ s'.2.1 = embAttrs b') embErr
+      (init : PVal × PVal × PVal × PVal × PVal × PVal × PVal), init.1 = embAttrs [] →
+      (∀ (d : List (Str × AttrArg)) (acc : Attrs) s, s.1 = embAttrs acc →
+        Sim (fun (r : ForInStep _) (b' : Attrs) => ∃ s', r = .yield s' ∧ s'.1 = embAttrs b') embErr
           (ob (embArgDict d) s) (d.foldlM (fun acc kv => pairStep cfg kv acc) acc)) →
       (do
         let l ← pyIter (PVal.tuple (ds.map embArgDict))
         let s ← forIn l init ob
-        let self ← pyDictUpdate (embAttrs cur) s.2.1
+        let self ← pyDictUpdate (embAttrs cur) s.1
         Except.ok self : PyM PVal) = embRes embAttrs (attrsUpdate cfg cur ds) := by
     intro ds ob init h0 hob
-    have hl := forIn_sim (fun (s : PVal × PVal × PVal × PVal × PVal × PVal × PVal) (b : Attrs) => s.2.1 = embAttrs b)
+    have hl := forIn_sim (fun (s : PVal × PVal × PVal × PVal × PVal × PVal × PVal) (b : Attrs) => s.1 = embAttrs b)
       embErr embArgDict ds ob (fun d acc => d.foldlM (fun acc kv => pairStep cfg kv acc) acc) init [] h0
       (fun d _ s b hR => hob d b s hR)
     have hb := Sim.bind (R' := fun (t : PVal) (b : Attrs) => t = embAttrs (dictUpdate cur b)) hl
       (k := fun s => do
-        let self ← pyDictUpdate (embAttrs cur) s.2.1
+        let self ← pyDictUpdate (embAttrs cur) s.1
         Except.ok self)
       (by
         intro s b hR
@@ -103,26 +103,26 @@ theorem src_update (h : TagAttrDict_update_available = true) (h1 : normalize_att
   have hsp' : htmlEscapeT cfg.textTbl [' '] = [' '] := hsp
   simp only [if_true, Bool.false_eq_true, if_false] at he he0
   have outer : ∀ (d : List (Str × AttrArg)) (acc : Attrs) (s : PVal × PVal × PVal × PVal × PVal × PVal × PVal),
-      s.2.1 = embAttrs acc → True := fun _ _ _ _ => trivial
+      s.1 = embAttrs acc → True := fun _ _ _ _ => trivial
   unfold TagAttrDict_update
   simp only [ok_bind, pure_eq_ok, truthy_bool]
   have hkw : truthy (embArgDict kw) = !kw.isEmpty := by cases kw <;> rfl
   have hadd : pyAdd (globalsOf cfg) (PVal.tuple (args.map embArgDict)) (PVal.tuple [embArgDict kw])
       = .ok (PVal.tuple ((args ++ [kw]).map embArgDict)) := by simp [pyAdd, pyAddBase]
   -- the body of the outer loop, whatever its text, runs the inner loop over the items of the dict
-  have hob : ∀ ob, (∀ (d : List (Str × AttrArg)) (acc : Attrs) s, s.2.1 = embAttrs acc →
-        Sim (fun (r : ForInStep _) (b' : Attrs) => ∃ s', r = .yield s' ∧ s'.2.1 = embAttrs b') embErr
+  have hob : ∀ ob, (∀ (d : List (Str × AttrArg)) (acc : Attrs) s, s.1 = embAttrs acc →
+        Sim (fun (r : ForInStep _) (b' : Attrs) => ∃ s', r = .yield s' ∧ s'.1 = embAttrs b') embErr
           (ob (embArgDict d) s) (d.foldlM (fun acc kv => pairStep cfg kv acc) acc)) →
       (if truthy (embArgDict kw) = true then do
         let a ← pyAdd (globalsOf cfg) (PVal.tuple (args.map embArgDict)) (PVal.tuple [embArgDict kw])
         let l ← pyIter a
-        let s ← forIn l (PVal.none, PVal.dict [], PVal.none, PVal.none, PVal.none, PVal.none, PVal.none) ob
-        let self ← pyDictUpdate (embAttrs cur) s.2.1
+        let s ← forIn l (PVal.dict [], PVal.none, PVal.none, PVal.none, PVal.none, PVal.none, PVal.none) ob
+        let self ← pyDictUpdate (embAttrs cur) s.1
         Except.ok self
       else do
         let l ← pyIter (PVal.tuple (args.map embArgDict))
-        let s ← forIn l (PVal.none, PVal.dict [], PVal.none, PVal.none, PVal.none, PVal.none, PVal.none) ob
-        let self ← pyDictUpdate (embAttrs cur) s.2.1
+        let s ← forIn l (PVal.dict [], PVal.none, PVal.none, PVal.none, PVal.none, PVal.none, PVal.none) ob
+        let self ← pyDictUpdate (embAttrs cur) s.1
         Except.ok self : PyM PVal)
       = embRes embAttrs (attrsUpdate cfg cur (if kw.isEmpty then args else args ++ [kw])) := by
     intro ob hOb
